@@ -451,6 +451,77 @@ pub fn judge_supply(t: &SupplyTrace, o: &SupplyOutcome) -> SupplyJudgement {
             }
         }
     }
+    // C03 for an inspection: its link is what recording the working directory before and after the
+    // scripted command gives; judged only in the simple case (one root inspection that exits 0, no
+    // delegation, rules in scope, every step's rules accepted by the reference)
+    let mut insp_modelled = false;
+    let mut insp_reject: Option<String> = None;
+    if t.root.layout.inspect.len() == 1 && exits.len() == 1 && ev.rules_judged && ev.rules_reject.is_none() && ev.fails.is_empty() && c01.is_empty() {
+        let insp = &t.root.layout.inspect[0];
+        if insp.actor.exit == ExitSpec::Code(0) && t.work_links.is_empty() {
+            let digest = |content: &str| {
+                let mut d = refmodel::Digests::new();
+                d.insert("sha256".to_string(), crate::gen::sha256_hex(content.as_bytes()));
+                d
+            };
+            let mut before = refmodel::Artifacts::new();
+            for (n, c) in &t.work_files {
+                before.insert(n.clone(), digest(c));
+            }
+            let mut after_content: BTreeMap<String, String> = t.work_files.iter().cloned().collect();
+            let mut modelled = true;
+            for op in &insp.actor.ops {
+                match op {
+                    FsOp::Write { path, content } => {
+                        after_content.insert(path.clone(), content.clone());
+                    }
+                    FsOp::Append { path, content } => {
+                        let cur = after_content.get(path).cloned().unwrap_or_default();
+                        after_content.insert(path.clone(), format!("{cur}{content}"));
+                    }
+                    FsOp::Remove { path } => {
+                        after_content.remove(path);
+                    }
+                    _ => modelled = false,
+                }
+            }
+            let mut after = refmodel::Artifacts::new();
+            for (n, c) in &after_content {
+                after.insert(n.clone(), digest(c));
+            }
+            let paths_ok = before.keys().chain(after.keys()).all(|p| !p.contains('/') && !p.is_empty());
+            if let (true, true, Some(em), Some(ep)) = (
+                modelled,
+                paths_ok,
+                insp.exp_mat.iter().map(|r| refmodel::parse_rule(r)).collect::<Option<Vec<_>>>(),
+                insp.exp_prod.iter().map(|r| refmodel::parse_rule(r)).collect::<Option<Vec<_>>>(),
+            ) {
+                if em.iter().chain(ep.iter()).all(rule_in_scope) {
+                    // the links of the steps, as the level evaluation used them
+                    let mut links: BTreeMap<String, LinkArts> = BTreeMap::new();
+                    for st in &ev.steps {
+                        if let Some(c) = st.cands.iter().find(|c| c.strict) {
+                            links.insert(st.name.clone(), LinkArts { materials: arts_of(&c.signed["materials"]), products: arts_of(&c.signed["products"]) });
+                        }
+                    }
+                    links.insert(insp.name.clone(), LinkArts { materials: before, products: after });
+                    insp_modelled = true;
+                    if let RuleVerdict::Reject(why) = refmodel::apply_item(&em, &ep, &insp.name, &links) {
+                        insp_reject = Some(why);
+                    }
+                }
+            }
+        }
+    }
+    if insp_modelled {
+        if let Some(why) = &insp_reject {
+            if any_ok {
+                f.push(finding("C03", "rule-violation-accepted", format!("inspection {}: reference model rejects: {why}", t.root.layout.inspect[0].name)));
+            }
+        } else if let Some(v) = o.verdicts.iter().find(|v| !v.ok && v.panic.is_none() && v.class == "ArtifactRuleError") {
+            f.push(finding("C03", "rule-rejection-without-cause", format!("the verifier rejects with '{}' but the reference model accepts every step's and the inspection's rules", v.msg.chars().take(200).collect::<String>())));
+        }
+    }
     // C03, other direction: a rule rejection needs a cause in the reference model
     // (only where no inspection can be the one whose rules reject)
     if ev.rules_judged && ev.rules_reject.is_none() && c01.is_empty() && exits.is_empty() {
@@ -598,7 +669,8 @@ fn judge_c08(t: &SupplyTrace, o: &SupplyOutcome, ev: &LevelEval, root_sig_bad: b
                         }
                     }
                     for (rules, present, what) in [(&insp.exp_mat, &before, "materials"), (&insp.exp_prod, &after, "products")] {
-                        for r in rules.iter() {
+                        // (only a DISALLOW that comes first: a rule before it could have consumed the file)
+                        for r in rules.iter().take(1) {
                             if r.len() == 2 && r[0] == "DISALLOW" && present.contains(&r[1]) {
                                 f.push(finding(
                                     "C08",
